@@ -474,9 +474,12 @@ def readd(cfg=None, reopen_ok=False):
             for f in files[:2]:
                 ops.append(dict(f, d=-1, reuse=0))
                 nfiles += 1
-        if look[0]:
+        if look[0] == 1:
             # address an entry by its Rock Ridge path (where there is one) before it goes away ...
             ops.append({'k': 'hide', 'i': look[1], 'via': 1, 'on': 1})
+        elif look[0] == 2:
+            # ... or only look it up (a query that a schedule of C06 may or may not have made as well)
+            ops.append({'k': 'query', 'q': 0, 'i': 2 * look[1] + 1})
         ops += mid
         ops += [{'k': 'rm_file', 'b': 0, 'j': 0}] * nfiles
         ops += [{'k': 'rm_dir', 'd': 0, 'ns': 7}] * depth
@@ -490,8 +493,8 @@ def readd(cfg=None, reopen_ok=False):
             if rnd == 0 and twice:
                 ops += [{'k': 'rm_file', 'b': 0, 'j': 0}] * nfiles
                 ops += [{'k': 'rm_dir', 'd': 0, 'ns': 7}] * depth
-        if look[0]:
-            # ... and again once it is back
+        if look[0] != 3:
+            # ... and again once it is back (look[0] == 0: without any earlier lookup of the program's own)
             ops.append({'k': 'hide', 'i': look[1], 'via': 1, 'on': look[2]})
         return ops + tail
     D = add_dir(rsz=st.integers(0, 2), sz=st.integers(0, 2))
@@ -503,7 +506,7 @@ def readd(cfg=None, reopen_ok=False):
         tail_choices.append(reopen)
     return program(c, st.builds(build, st.sampled_from([2, 2, 3]), st.lists(D, min_size=3, max_size=3), st.lists(F, min_size=2, max_size=2), st.booleans(),
                                 st.lists(st.one_of(*mid_choices), min_size=0, max_size=2), st.lists(st.one_of(*tail_choices), min_size=1, max_size=8), st.booleans(),
-                                st.tuples(st.integers(0, 1), st.integers(0, 4), st.integers(0, 1))))
+                                st.tuples(st.integers(0, 3), st.integers(0, 4), st.integers(0, 1))))
 
 
 def symcomps(cfg=None, reopen_ok=False):
